@@ -35,6 +35,10 @@ fn norm(e: &Ev, with_link: bool) -> Option<Value> {
     match e {
         Ev::Enter { cid, handler, args, ctx, .. } => {
             let mut a = args.clone();
+            // which contract value a handler ran on is a matter of the deployment (C02 / C06 decide it)
+            if let Some(o) = a.as_object_mut() {
+                o.remove("__self");
+            }
             // error texts handed to reply handlers embed deployment-specific wording
             if handler.starts_with("reply:") {
                 if a.get("error").is_some() {
